@@ -95,6 +95,22 @@ impl RetryPolicy {
         Ok(Self::default())
     }
 
+    /// Grow `current` by the multiplier, clamped to `0..=max_backoff`.
+    ///
+    /// The float product can leave the range `Duration` accepts (negative or
+    /// NaN multiplier, overflow, a `max_backoff` near `u64::MAX` seconds that
+    /// rounds up as `f64`). Those cases saturate instead of panicking in
+    /// `Duration::from_secs_f64`; NaN keeps selecting `max_backoff`.
+    fn next_backoff(&self, current: Duration) -> Duration {
+        let scaled = current.as_secs_f64() * self.multiplier;
+        if scaled.is_nan() || scaled >= self.max_backoff.as_secs_f64() {
+            self.max_backoff
+        } else {
+            // 0 <= value < max_backoff <= u64::MAX seconds: always convertible
+            Duration::from_secs_f64(scaled.max(0.0)).min(self.max_backoff)
+        }
+    }
+
     /// Execute a function with retry logic
     pub async fn execute<F, Fut, T>(&self, mut f: F) -> Result<T>
     where
@@ -130,16 +146,13 @@ impl RetryPolicy {
                         #[allow(clippy::cast_precision_loss)]
                         // Precision loss is acceptable for jitter calculation
                         let jitter_ms = (delay.as_millis() as f64 * jitter) as u64;
-                        delay += Duration::from_millis(jitter_ms);
+                        delay = delay.saturating_add(Duration::from_millis(jitter_ms));
                     }
 
                     sleep(delay).await;
 
                     // Increase backoff
-                    backoff = Duration::from_secs_f64(
-                        (backoff.as_secs_f64() * self.multiplier)
-                            .min(self.max_backoff.as_secs_f64()),
-                    );
+                    backoff = self.next_backoff(backoff);
                 }
             }
         }
@@ -223,6 +236,30 @@ mod tests {
                 std::env::remove_var(var);
             }
         }
+    }
+
+    #[test]
+    fn test_next_backoff_saturates() {
+        let policy = |multiplier: f64, max_backoff: Duration| RetryPolicy {
+            max_attempts: 3,
+            initial_backoff: Duration::from_millis(100),
+            max_backoff,
+            multiplier,
+            jitter: false,
+        };
+        let one = Duration::from_secs(1);
+        let ten = Duration::from_secs(10);
+        let huge = Duration::from_secs(u64::MAX);
+
+        assert_eq!(policy(2.0, ten).next_backoff(one), Duration::from_secs(2));
+        assert_eq!(policy(2.0, ten).next_backoff(ten), ten);
+        assert_eq!(policy(-1.0, ten).next_backoff(one), Duration::ZERO);
+        assert_eq!(policy(f64::NEG_INFINITY, ten).next_backoff(one), Duration::ZERO);
+        assert_eq!(policy(f64::NAN, ten).next_backoff(one), ten);
+        assert_eq!(policy(f64::INFINITY, ten).next_backoff(one), ten);
+        assert_eq!(policy(1e30, huge).next_backoff(one), huge);
+        assert_eq!(policy(f64::NAN, huge).next_backoff(one), huge);
+        assert_eq!(policy(1.0, huge).next_backoff(huge), huge);
     }
 
     #[tokio::test]
